@@ -57,13 +57,13 @@ impl CfgSpec {
                 ScannerMode::new(
                     &m.name,
                     m.pats.iter().map(|p| {
-                        let q = Pattern::new(p.re.print_top(syms), p.tt);
+                        let q = Pattern::new(p.re.print_top(syms), crate::ttmap::conc(p.tt));
                         match &p.la {
                             Some((pos, l)) => q.with_lookahead(Lookahead::new(*pos, l.print(syms))),
                             None => q,
                         }
                     }),
-                    m.trans.clone(),
+                    m.trans.iter().map(|(t, m)| (crate::ttmap::conc(*t), *m)).collect::<Vec<_>>(),
                 )
             })
             .collect()
@@ -77,10 +77,10 @@ impl CfgSpec {
                 "name": m.name,
                 "patterns": m.pats.iter().map(|p| json!({
                     "pattern": p.re.print_top(syms),
-                    "token_type": p.tt,
+                    "token_type": crate::ttmap::conc(p.tt),
                     "lookahead": p.la.as_ref().map(|(pos, l)| json!({"is_positive": pos, "pattern": l.print(syms)})),
                 })).collect::<Vec<_>>(),
-                "transitions": m.trans,
+                "transitions": m.trans.iter().map(|(t, m)| (crate::ttmap::conc(*t), *m)).collect::<Vec<_>>(),
             })).collect::<Vec<_>>()
         })
     }
